@@ -42,10 +42,11 @@ NUIS_ORDER = ["frac_rms_increase", "sys_rms_base", "outlier_frac_base", "rms_fra
 
 
 # keyword options a caller may set (functools.partial(loss, c=…)); exact rationals so that the model sees the same number
-C_OPTS = [(5, 1), (3, 1), (5, 2), (10, 1)]          # first = the source default
+C_OPTS = [(5, 1), (3, 2), (5, 2), (10, 1), (3, 1)]  # first = the source default; 3/2 and 5/2 are below the widest core (1 + rms_frac ≤ 3)
 DELTA_OPTS = [(3, 1), (1, 1), (1, 2), (7, 1)]
 HAS_C = ("gaussian_mixture", "gaussian_mixture_w_sys", "gaussian_mixture_w_frac")
-SCALES = [1.0, 1e-5, 1e3, 1e-3]                       # flux units: the likelihoods are stated for any positive rms
+SCALES = [1.0, 1e-5, 1e3, 1e-3, 1e-19, 1e19]          # flux units: the likelihoods are stated for any positive rms
+SQUARES_RMS = ("gaussian_loss_w_sys", "student_t_loss_free_sys", "gaussian_mixture_w_sys")   # rms² + σ_sys² leaves float32 at the last two
 
 
 def gen_cases(rng, n):
@@ -66,6 +67,8 @@ def gen_cases(rng, n):
         nuis = dict(frac_rms_increase=float(rng.uniform(-0.5, 2)), sys_rms_base=float(abs(rng.normal(0, 1))),
                     outlier_frac_base=float(rng.uniform(0.01, 5)), rms_frac=float(rng.uniform(-0.6, 2)))
         scale = SCALES[rnd % len(SCALES)]
+        if loss in SQUARES_RMS and not 1e-9 < scale < 1e9:
+            scale = 1e-5 if scale < 1 else 1e3
         m, d, r = m * scale, d * scale, r * scale
         if rnd % 3 == 1 and not good.all():
             # what masked pixels of real images hold: NaN / inf data (the fitters sanitise rms only)
@@ -224,7 +227,14 @@ def doc_logpdf(c, sites):
     n = c["nuis"]
     loss = c["loss"]
 
+    good = np.asarray(c["good"], bool)
+
     def det(name):
+        # recomputed from what the caller passed in (the nuisance values and the rms map), never read back from the trace
+        if name == "sys_rms":
+            return float(n["sys_rms_base"]) * float(np.mean(r[good]))
+        if name == "outlier_frac":
+            return 0.05 * float(n["outlier_frac_base"])
         return float(sites[name + sfx]["value"])
     if loss == "gaussian_loss":
         return stats.norm.logpdf(d, m, r)
